@@ -92,6 +92,7 @@ class World:
         self.closers = {}       # c -> record
         self.aborters = []
         self.gates = {}
+        self.fed_at = {}        # handler id -> instant its request arrived
         self.loop_exceptions = []
         self.lost_at = None
         self.pending_at_loss = None
@@ -218,6 +219,7 @@ class World:
         return t
 
     def _feed_request(self, method, hid, arg=None, notification=False):
+        self.fed_at.setdefault(hid, self.now)
         if self.skind == 'rpc':
             params = [hid] if arg is None else [hid, arg]
             msg = {'jsonrpc': '2.0', 'method': method, 'params': params}
@@ -250,6 +252,8 @@ class World:
         elif k in ('NW', 'NQ'):
             self._feed_request(k[1], ev[1], notification=True)
         elif k == 'BT':
+            self.fed_at.setdefault(ev[1], self.now)
+            self.fed_at.setdefault(ev[2], self.now)
             a = {'jsonrpc': '2.0', 'method': 'W', 'params': [ev[1]], 'id': ev[1]}
             b = {'jsonrpc': '2.0', 'method': 'Q', 'params': [ev[2]], 'id': ev[2]}
             self.tr.feed(json.dumps([a, b]).encode() + b'\n')
@@ -415,6 +419,7 @@ def summary(w, stall):
     for hid, r in w.handlers.items():
         if 'task' in r:
             hs[hid] = {'kind': r['kind'], 'start': r['start'], 'done_at': r['done_at'],
+                       'arrived': w.fed_at.get(hid, r['start']),
                        'outcome': w.outcome(r['task']), 'cancel_seen': r.get('cancel_seen')}
     outs = {k: {'kind': r['kind'], 'start': r['start'], 'done_at': r['done_at'],
                 'outcome': w.outcome(r['task'])} for k, r in w.outs.items()}
